@@ -622,6 +622,9 @@ func C05(run *mon.Run) {
 				if err != nil {
 					return nil, nil, err
 				}
+				if !ok {
+					return pk.Encode(), nil, nil // accepted although the reference rejects: judged by the caller
+				}
 				if !bytes.Equal(pk.EncodeCompressed(), ec.c.EncodeCompressed(q)) {
 					return []byte("compressed-encoding-differs"), nil, nil
 				}
@@ -642,6 +645,9 @@ func C05(run *mon.Run) {
 				pk, err := crypto.DecodePublicKeyCompressed(ec.alg, c.b)
 				if err != nil {
 					return nil, nil, err
+				}
+				if !ok {
+					return pk.EncodeCompressed(), nil, nil
 				}
 				if !bytes.Equal(pk.Encode(), ec.c.EncodeRaw(q)) {
 					return []byte("raw-encoding-differs"), nil, nil
